@@ -83,6 +83,8 @@ class Harness:
         self.tier = tier
 
 
+# back ends for which the canary assertion is checked in the same run; SMT back ends get a separate SAT run on that one property
+INLINE_CANARY = ('sat', 'kissat', 'cadical')
 BACKEND_FLAGS = {
     'sat': [],
     'z3': ['--z3'],
@@ -124,7 +126,7 @@ def build_and_check(h, work, timeout, mem_gb=8, extra_defines=(), tag='', build_
     log = os.path.join(d, 'log.txt')
     open(log, 'w').close()
     r.log = log
-    defs = ['-D' + x for x in list(h.defines) + list(extra_defines) + (['VX_CANARY'] if h.canary else [])]
+    defs = ['-D' + x for x in list(h.defines) + list(extra_defines) + (['VX_CANARY'] if (h.canary and (h.backend in INLINE_CANARY or 'VX_CANARY' in extra_defines)) else [])]
     objs = []
     try:
         if h.cpp:
@@ -212,7 +214,7 @@ def build_and_check(h, work, timeout, mem_gb=8, extra_defines=(), tag='', build_
         keep = []
         canaries = [o for o in obs if o['desc'].startswith('canary:')]
         obs = [o for o in obs if not o['desc'].startswith('canary:')]
-        if h.canary:
+        if h.canary and h.backend in INLINE_CANARY and not build_only:
             # vacuity guard, same run: assert(0) placed after the call under contract must be reachable, i.e. FAIL
             if not canaries:
                 raise ToolError('vacuity guard: canary assertion not found in the property list')
@@ -296,6 +298,8 @@ def canary(h, work, timeout, mem_gb=8):
     os.makedirs(d, exist_ok=True)
     # build only (reuse build_and_check up to the binary by asking for a property that does not exist yet)
     r = build_and_check(hc, work, timeout, mem_gb, extra_defines=['VX_CANARY'], tag='.canary', build_only=True)
+    if r.status == 'undecided':
+        return False, 'canary undecided: ' + r.reason
     if r.status == 'undecided' and not r.binary:
         return False, 'canary undecided: ' + r.reason
     rc, out, dt = run(['cbmc', r.binary, '--show-properties'], d, 300, mem_gb)
